@@ -1393,4 +1393,275 @@ theorem accessor_hyps (hbr : ∀ h0, p.hostname = some h0 → '[' ∉ h0 ∧ ']'
 
 end
 
+/-! ## quoting and unquoting keep the first character of a path segment off `/` -/
+
+theorem pctTok_ne_nil (t : Tok) : pctTok t ≠ [] := by
+  cases t with
+  | raw c => exact utf8_ne_nil c
+  | esc h1 h2 => simp [pctTok]
+  | stray => simp [pctTok]
+
+theorem pctStr_eq_nil {y : Str} (h : pctStr y = []) : y = [] := by
+  unfold pctStr pct at h
+  have ht : tokens y = [] := by
+    cases hts : tokens y with
+    | nil => rfl
+    | cons t ts =>
+      rw [hts] at h
+      simp only [List.flatMap_cons, List.append_eq_nil_iff] at h
+      exact absurd h.1 (pctTok_ne_nil t)
+  have := render_tokens y
+  rw [ht] at this
+  simpa [render] using this.symm
+
+theorem unquotePath_eq_nil {y : Str} (h : unquotePath y = []) : y = [] := by
+  apply pctStr_eq_nil
+  rw [← pctStr_safelyUnquote Gen.Quote.unsafeForPath (by decide) y]
+  show pctStr (unquotePath y) = []
+  rw [h]; rfl
+
+theorem safelyQuote_eq_nil {y : Str} (h : safelyQuote y = []) : y = [] := by
+  apply pctStr_eq_nil
+  rw [← pctStr_safelyQuote y, h]; rfl
+
+theorem head_ne_slash (f : Str → Str)
+    (hsplit : ∀ s, splitOn (f s) '/' = (splitOn s '/').map f) (hnil : ∀ y, f y = [] → y = [])
+    (d : Char) (r : Str) (hd : d ≠ '/') : (f (d :: r)).head? ≠ some '/' := by
+  intro hh
+  cases hf : f (d :: r) with
+  | nil => rw [hf] at hh; cases hh
+  | cons c t =>
+    rw [hf] at hh
+    simp only [List.head?_cons, Option.some.injEq] at hh
+    subst hh
+    have h1 := hsplit (d :: r)
+    rw [hf, splitOn_cons_sep, splitOn_cons_ne _ _ _ hd] at h1
+    cases h2 : splitOn r '/' with
+    | nil => exact absurd h2 (splitOn_ne_nil r '/')
+    | cons a rest =>
+      rw [h2] at h1
+      simp only [List.map_cons, List.cons.injEq] at h1
+      have := hnil _ h1.1.symm
+      cases this
+
+theorem safelyQuote_nil : safelyQuote [] = [] := by
+  simp [safelyQuote, tokens, quoteToks, render]
+
+theorem safelyQuote_cons_slash (q : Str) : safelyQuote ('/' :: q) = '/' :: safelyQuote q := by
+  have := safelyQuote_append_sep (c := '/') ⟨by decide, by decide⟩ (by decide) [] q
+  simpa [safelyQuote_nil] using this
+
+/-- the printed path: the canonical path re-quoted or unquoted once more -/
+def finishPath (quoted : Bool) (cp : Str) : Str := if quoted then safelyQuote cp else unquotePath cp
+
+theorem finishPath_nil (quoted : Bool) : finishPath quoted [] = [] := by
+  cases quoted <;> simp [finishPath, safelyQuote_nil, unquotePath, safelyUnquote_nil]
+
+theorem finishPath_cons_slash (quoted : Bool) (q : Str) :
+    finishPath quoted ('/' :: q) = '/' :: finishPath quoted q := by
+  cases quoted
+  · simp only [finishPath, Bool.false_eq_true, if_false]; exact safelyUnquote_cons_slash _ q
+  · simp only [finishPath, if_true]; exact safelyQuote_cons_slash q
+
+theorem finishPath_head (quoted : Bool) (d : Char) (r : Str) (hd : d ≠ '/') :
+    (finishPath quoted (d :: r)).head? ≠ some '/' := by
+  cases quoted
+  · simp only [finishPath, Bool.false_eq_true, if_false]
+    exact head_ne_slash unquotePath
+      (fun s => splitOn_safelyUnquote _ ⟨by decide, by decide⟩ (by decide) (by decide) (by decide) s)
+      (fun y => unquotePath_eq_nil) d r hd
+  · simp only [finishPath, if_true]
+    exact head_ne_slash safelyQuote
+      (fun s => splitOn_safelyQuote ⟨by decide, by decide⟩ (by decide) s)
+      (fun y => safelyQuote_eq_nil) d r hd
+
+/-- the printed path of an absolute path: empty, or a slash not followed by a slash -/
+theorem finishPath_shape (quoted : Bool) (path : Str) (m : Bool) (hp : AbsPath path) :
+    (finishPath quoted (canonPath path m) = [] ∨ ∃ q, finishPath quoted (canonPath path m) = '/' :: q) ∧
+    startsWith (finishPath quoted (canonPath path m)) ['/', '/'] = false := by
+  rcases canonPath_shape path m hp with h0 | h1 | ⟨d, r, h2, hd⟩
+  · rw [h0, finishPath_nil]; exact ⟨Or.inl rfl, rfl⟩
+  · rw [h1, finishPath_cons_slash, finishPath_nil]
+    exact ⟨Or.inr ⟨_, rfl⟩, by simp [startsWith_cons_cons, startsWith_nil_cons]⟩
+  · rw [h2, finishPath_cons_slash]
+    refine ⟨Or.inr ⟨_, rfl⟩, ?_⟩
+    have := finishPath_head quoted d r hd
+    cases hf : finishPath quoted (d :: r) with
+    | nil => simp [startsWith_cons_cons, startsWith_nil_cons]
+    | cons c t =>
+      rw [hf] at this
+      simp only [List.head?_cons, ne_eq, Option.some.injEq] at this
+      simp [startsWith_cons_cons, startsWith_nil, this]
+
+theorem mem_finishPath_not {d : Char} (hd : d = '?' ∨ d = '#') (quoted : Bool) (cp : Str)
+    (h : d ∉ cp) : d ∉ finishPath quoted cp := by
+  cases quoted
+  · simp only [finishPath, Bool.false_eq_true, if_false]
+    rcases hd with rfl | rfl <;>
+      exact not_mem_safelyUnquote _ ⟨by decide, by decide⟩ (by decide) (by decide) cp h
+  · simp only [finishPath, if_true]
+    rcases hd with rfl | rfl <;>
+      exact not_mem_safelyQuote ⟨by decide, by decide⟩ (by decide) cp
+
+theorem noCtl_finishPath (quoted : Bool) {cp : Str} (h : NoCtl cp) : NoCtl (finishPath quoted cp) := by
+  cases quoted
+  · simp only [finishPath, Bool.false_eq_true, if_false]; exact noCtl_safelyUnquote _ h
+  · simp only [finishPath, if_true]; exact noCtl_safelyQuote _
+
+/-! ## `canonParts` is well-formed -/
+
+section
+variable {puny : Str → Str} (hpc : PunyClean puny) (quoted sf : Bool) {S rest : Str} {p : Parsed}
+  (h : FromParse S rest p)
+include hpc h
+
+theorem canonComps_path_eq :
+    (canonComps puny quoted sf p).path =
+      finishPath quoted (canonPath p.path
+        (!p.query.isEmpty || truthy (if sf then none else some p.fragment))) := by
+  simp only [canonComps, finishPath]
+
+theorem noCtl_of_sub {x : Str} (hx : x ⊆ rest) : NoCtl x := NoCtl.of_subset hx h.noCtl_rest
+
+theorem noCtl_path : NoCtl (canonComps puny quoted sf p).path := by
+  rw [canonComps_path_eq hpc quoted sf h]
+  apply noCtl_finishPath
+  intro c hc
+  rcases mem_canonPath hc with h1 | rfl
+  · exact noCtl_safelyUnquote _ (noCtl_of_sub hpc h h.split.sub_path) c h1
+  · decide
+
+theorem noCtl_query : NoCtl (canonComps puny quoted sf p).query := by
+  intro c hc
+  have hc' : c ∈ canonQuery quoted p.query := by simpa [canonComps] using hc
+  rcases mem_canonQuery hc' with rfl | rfl | ⟨y, hy, hcy⟩
+  · decide
+  · decide
+  · exact noCtl_requote quoted _
+      (noCtl_of_sub hpc h (fun x hx => h.split.sub_query (hy hx))) c hcy
+
+theorem noCtl_fragment : NoCtl ((canonComps puny quoted sf p).fragment.getD []) := by
+  intro c hc
+  have hc' : c ∈ (canonOpt quoted unquoteFragment (if sf then none else some p.fragment)).getD [] := by
+    simpa [canonComps] using hc
+  obtain ⟨u, hu, hcu⟩ := mem_getD_canonOpt hc'
+  have hsub : u ⊆ rest := by
+    cases sf
+    · simp only [Bool.false_eq_true, if_false, Option.some.injEq] at hu
+      subst hu; exact h.split.sub_fragment
+    · simp at hu
+  rcases hcu with hcu | hcu
+  · exact noCtl_requote quoted _ (noCtl_of_sub hpc h hsub) c hcu
+  · exact noCtl_of_sub hpc h hsub c hcu
+
+theorem noCtl_netloc_new : NoCtl (canonParts puny quoted sf p).netloc := by
+  intro c hc
+  simp only [canonParts, unsplitNetloc_eq] at hc
+  obtain ⟨hu, hpw, hh⟩ := noCtl_comps hpc quoted sf h
+  rcases List.mem_append.1 hc with h1 | h1
+  · rcases mem_authPart h1 with h2 | h2 | rfl | rfl
+    · exact hu c h2
+    · exact hpw c h2
+    · decide
+    · decide
+  · rcases List.mem_append.1 h1 with h2 | h2
+    · rcases mem_hostPart h2 with h3 | rfl | rfl
+      · exact hh c h3
+      · decide
+      · decide
+    · rcases mem_portPart h2 with rfl | h3
+      · decide
+      · exact digit_not_ctl h3
+
+theorem nodelim_netloc_new : ∀ c ∈ (canonParts puny quoted sf p).netloc, isNetlocDelim c = false := by
+  intro c hc
+  cases hd : isNetlocDelim c with
+  | false => rfl
+  | true =>
+    exfalso
+    have hd' : c ∈ ['/', '?', '#'] := by
+      simp only [isNetlocDelim, Bool.or_eq_true, decide_eq_true_eq] at hd
+      rcases hd with (rfl | rfl) | rfl <;> simp
+    obtain ⟨h1, h2, h3⟩ := delim_not_in_comps hpc quoted sf h hd'
+    simp only [canonParts, unsplitNetloc_eq] at hc
+    rcases List.mem_append.1 hc with hc1 | hc1
+    · rcases mem_authPart hc1 with h4 | h4 | rfl | rfl
+      · exact h1 h4
+      · exact h2 h4
+      · revert hd; decide
+      · revert hd; decide
+    · rcases List.mem_append.1 hc1 with hc2 | hc2
+      · rcases mem_hostPart hc2 with h4 | rfl | rfl
+        · exact h3 h4
+        · revert hd; decide
+        · revert hd; decide
+      · rcases mem_portPart hc2 with rfl | h4
+        · revert hd; decide
+        · simp only [isNetlocDelim, Bool.or_eq_true, decide_eq_true_eq] at hd
+          rcases hd with (rfl | rfl) | rfl <;> revert h4 <;> decide
+
+/-- **`canonParts` prints unambiguously**: the 5-tuple `canonicalize_url` hands to
+`urlunsplit` is well-formed — for every parse of a cleaned string, every option setting and
+every decoder bringing in no delimiter — as soon as the bracket check passes on the new
+netloc (`canon_netlocOk_of_no_bracket` discharges that when the netloc holds no bracket) -/
+theorem canonParts_wf (hbr : netlocOk (canonParts puny quoted sf p).netloc = true) :
+    WF (canonParts puny quoted sf p).scheme (canonParts puny quoted sf p).netloc
+      (canonParts puny quoted sf p).path (canonParts puny quoted sf p).query
+      ((canonParts puny quoted sf p).fragment.getD []) := by
+  have hscheme : (canonParts puny quoted sf p).scheme = lower S := h.split.scheme
+  have hsne : lower S ≠ [] := by
+    obtain ⟨⟨c, r, e, _⟩, _⟩ := h.shaped; rw [e]; simp [Py.lower]
+  have hpath : (canonParts puny quoted sf p).path = (canonComps puny quoted sf p).path := rfl
+  have hshape := finishPath_shape quoted p.path
+    (!p.query.isEmpty || truthy (if sf then none else some p.fragment)) h.split.path_abs
+  refine
+    { scheme_ok := Or.inr (by rw [hscheme]; exact ⟨schemeShaped_lower h.shaped, lower_idem S⟩)
+      netloc_nodelim := nodelim_netloc_new hpc quoted sf h
+      netloc_ok := hbr
+      path_noq := ?_
+      path_noh := ?_
+      query_noh := ?_
+      path_abs := fun _ => by rw [hpath, canonComps_path_eq hpc quoted sf h]; exact hshape.1
+      path_no2 := fun _ => by rw [hpath, canonComps_path_eq hpc quoted sf h]; exact hshape.2
+      rel_nocolon := fun hs => absurd (hscheme ▸ hs) hsne
+      rel_nolead := fun hs => absurd (hscheme ▸ hs) hsne
+      clean := ?_ }
+  · rw [hpath, canonComps_path_eq hpc quoted sf h]
+    apply mem_finishPath_not (Or.inl rfl)
+    intro hm
+    rcases mem_canonPath hm with h1 | h1
+    · exact not_mem_safelyUnquote _ ⟨by decide, by decide⟩ (by decide) (by decide) _
+        h.split.path_noq h1
+    · cases h1
+  · rw [hpath, canonComps_path_eq hpc quoted sf h]
+    apply mem_finishPath_not (Or.inr rfl)
+    intro hm
+    rcases mem_canonPath hm with h1 | h1
+    · exact not_mem_safelyUnquote _ ⟨by decide, by decide⟩ (by decide) (by decide) _
+        h.split.path_noh h1
+    · cases h1
+  · intro hm
+    have hm' : '#' ∈ canonQuery quoted p.query := by simpa [canonParts, canonComps] using hm
+    rcases mem_canonQuery hm' with h1 | h1 | ⟨y, hy, hcy⟩
+    · cases h1
+    · cases h1
+    · have hny : '#' ∉ y := fun hh => h.split.query_noh (hy hh)
+      have h1 : '#' ∉ unquoteQueryItem y :=
+        not_mem_safelyUnquote _ ⟨by decide, by decide⟩ (by decide) (by decide) y hny
+      unfold requote at hcy
+      split at hcy
+      · exact not_mem_safelyQuote ⟨by decide, by decide⟩ (by decide) _ hcy
+      · exact h1 hcy
+  · intro c hc
+    apply unsafe_of_ctl
+    simp only [List.mem_append] at hc
+    rcases hc with (((hc | hc) | hc) | hc) | hc
+    · rw [hscheme] at hc; exact (h.shaped.noCtl.lower) c hc
+    · exact noCtl_netloc_new hpc quoted sf h c hc
+    · exact noCtl_path hpc quoted sf h c hc
+    · exact noCtl_query hpc quoted sf h c hc
+    · exact noCtl_fragment hpc quoted sf h c hc
+
+end
+
 end Ural.CanonRoundTrip
